@@ -206,7 +206,8 @@ theorem blockTx_sv {P : Params} {c : DB} {b : Block} {avgs : TMap} {s s' : DB}
     (hn : (s.syncVersions.map (·.1)).Nodup) (hnew : ∀ r ∈ s.syncVersions, r.1 ≠ b.height) :
     s'.syncVersions = s.syncVersions ++ [(b.height, P.syncVersion)] ∧ s'.synced = some b.height ∧
     (s'.syncVersions.map (·.1)).Nodup := by
-  obtain ⟨⟨extra, hext, hall⟩, hnd, _⟩ := (blockTx_step (P := P) c b avgs (primsOK_svAt P b.height)).ok hs
+  obtain ⟨⟨extra, hext, hall⟩, hnd, _⟩ := (blockTx_step (P := P) c b avgs (primsOK_svAt P b.height)
+    (fun _ => Step.guarded (fun s => svAt_keep b.height s _ rfl rfl))).ok hs
   obtain ⟨hsy, hmem⟩ := blockTx_commit hs
   have hnd' := hnd hn
   rw [hext] at hmem hnd'
